@@ -41,26 +41,68 @@ def foreign_crates_called(crate, body, depth=2):
     return out
 
 
+def output_trait(facts):
+    """The crate-local sink trait, recognised by the shape of its methods, not by its name:
+    one method generic over a `serde::Deserializer` (role 'from'), one generic over `serde::Serialize`
+    (role 'value'), one non-generic `-> io::Result<()>` (role 'flush').
+    Returns {'path': trait path, 'from': name, 'value': name, 'flush': name}."""
+
+    def build():
+        found = []
+        for tr in facts.lib.raw.get("traits", []):
+            roles = {}
+            for it in tr["items"]:
+                preds = " ".join(it.get("predicates", []))
+                if "serde::Deserializer<" in preds or "serde::de::Deserializer<" in preds:
+                    roles.setdefault("from", []).append(it["name"])
+                elif "serde::Serialize" in preds or "serde::ser::Serialize" in preds:
+                    roles.setdefault("value", []).append(it["name"])
+                elif it.get("n_type_params") == 0 and it.get("n_inputs") == 1 and it.get("ret_ty") == "std::result::Result<(), std::io::Error>":
+                    roles.setdefault("flush", []).append(it["name"])
+            if all(len(roles.get(r, [])) == 1 for r in ("from", "value", "flush")):
+                found.append({"path": tr["path"], "from": roles["from"][0], "value": roles["value"][0], "flush": roles["flush"][0]})
+        if len(found) != 1:
+            raise AnchorLost(f"expected one crate-local sink trait (deserializer method, value method, flush), found {len(found)}")
+        return found[0]
+
+    return memo(facts, "output_trait", build)
+
+
+def output_role(facts, f):
+    """'from' / 'value' / 'flush' when the callee `f` is a method of the sink trait, else None."""
+    if not f:
+        return None
+    ot = output_trait(facts)
+    if f.get("trait") != ot["path"]:
+        return None
+    for r in ("from", "value", "flush"):
+        if f.get("name") == ot[r]:
+            return r
+    return None
+
+
 def output_impls(facts):
     """{fmt: {'impl':..., 'adt':..., 'transcode_from': Body, 'transcode_value': Body, 'flush': Body}}
-    for the four format output types: impls of the crate-local `Output` trait on a local ADT (not a
-    reference), classified by the third-party serializer crate their entry points call."""
+    for the four format output types: impls of the crate-local sink trait on a local ADT (not a
+    reference), classified by the third-party serializer crate their entry points call. The keys name
+    roles (see output_trait), whatever the methods are called in the source."""
 
     def build():
         lib = facts.lib
+        ot = output_trait(facts)
         out = {}
-        for imp in local_trait_impls(lib, "Output"):
+        for imp in local_trait_impls(lib, ot["path"]):
             if imp["self_ty"].startswith("&"):
                 continue
-            tf = method_body(lib, imp, "transcode_from")
-            tv = method_body(lib, imp, "transcode_value")
-            fl = method_body(lib, imp, "flush")
+            tf = method_body(lib, imp, ot["from"])
+            tv = method_body(lib, imp, ot["value"])
+            fl = method_body(lib, imp, ot["flush"])
             if not (tf and tv and fl):
-                raise AnchorLost(f"Output impl for {imp['self_ty']} lacks one of transcode_from/transcode_value/flush")
+                raise AnchorLost(f"sink impl for {imp['self_ty']} lacks one of its three methods")
             crates = foreign_crates_called(lib, tf) | foreign_crates_called(lib, tv)
             fmts = [f for f, cs in FOREIGN_FMT.items() if any(c in crates for c in cs)]
             if len(fmts) != 1:
-                raise AnchorLost(f"cannot classify Output impl {imp['self_ty']}: serializer crates {sorted(crates)}")
+                raise AnchorLost(f"cannot classify sink impl {imp['self_ty']}: serializer crates {sorted(crates)}")
             out[fmts[0]] = {
                 "impl": imp,
                 "adt": imp.get("self_adt"),
@@ -69,7 +111,7 @@ def output_impls(facts):
                 "flush": fl,
             }
         if set(out) != set(FOREIGN_FMT):
-            raise AnchorLost(f"expected Output impls for 4 formats, found {sorted(out)}")
+            raise AnchorLost(f"expected sink impls for 4 formats, found {sorted(out)}")
         return out
 
     return memo(facts, "output_impls", build)
@@ -78,9 +120,9 @@ def output_impls(facts):
 def dispatcher_impl(facts):
     """The `Output` impl on a reference type (the static dispatcher)."""
     lib = facts.lib
-    imps = [i for i in local_trait_impls(lib, "Output") if i["self_ty"].startswith("&")]
+    imps = [i for i in local_trait_impls(lib, output_trait(facts)["path"]) if i["self_ty"].startswith("&")]
     if len(imps) != 1:
-        raise AnchorLost(f"expected exactly one Output impl on a reference (the dispatcher), found {len(imps)}")
+        raise AnchorLost(f"expected exactly one sink impl on a reference (the dispatcher), found {len(imps)}")
     return imps[0]
 
 
